@@ -18,6 +18,10 @@ mod legacy_fields;
 mod c16;
 mod c12;
 mod c02;
+mod fsfam;
+mod c08;
+mod c09;
+mod c17;
 
 use std::io::{BufWriter, Write};
 
@@ -50,6 +54,9 @@ fn main() {
                 "C16path" => c16::gen_path(tier, seed, &mut out),
                 "C12" => c12::gen(tier, seed, &mut out),
                 "C02" => c02::gen(tier, seed, &mut out),
+                "C08" => c08::gen(tier, seed, &mut out),
+                "C09" => c09::gen(tier, seed, &mut out),
+                "C17" => c17::gen(tier, seed, &mut out),
                 _ => {
                     eprintln!("unknown property {}", prop);
                     std::process::exit(2);
@@ -140,6 +147,27 @@ fn replay_one(toks: &[&str]) -> String {
             &String::from_utf8(common::unhex(toks[1])).unwrap(),
             &String::from_utf8(common::unhex(toks[2])).unwrap(),
         ),
+        "C08" => {
+            let scratch = common::scratch_root().join("c08r");
+            std::fs::create_dir_all(&scratch).unwrap();
+            let r = c08::observe(&toks[1..], &scratch);
+            common::rm_rf(&scratch);
+            r
+        }
+        "C09" => {
+            let scratch = common::scratch_root().join("c09r");
+            std::fs::create_dir_all(&scratch).unwrap();
+            let r = c09::observe(&toks[1..], &scratch);
+            common::rm_rf(&scratch);
+            r
+        }
+        "C17" => {
+            let scratch = common::scratch_root().join("c17r");
+            std::fs::create_dir_all(&scratch).unwrap();
+            let r = c17::observe(&toks[1..], &scratch);
+            common::rm_rf(&scratch);
+            r
+        }
         other => format!("unknown-model {}", other),
     }
 }
